@@ -97,7 +97,10 @@ impl InkList {
             let mut names = Vec::new();
 
             for k in self.items.keys() {
-                names.push(k.get_origin_name().unwrap().clone());
+                // items written without a list name ("?.item") have no origin
+                if let Some(origin) = k.get_origin_name() {
+                    names.push(origin.clone());
+                }
             }
 
             return names;
